@@ -88,6 +88,30 @@ attribute is copied in order, so the last one wins) -/
 def attrLast (attrs : List Attr) (loc : String) : Option String :=
   attrs.foldl (fun acc a => if a.name.loc = loc then some a.value else acc) none
 
+/-! ### sibling order
+
+The order of differently named children is a free choice of a writer (no decoder of the
+library depends on it), the order of equally named children is not (values, fields,
+options, items).  The correspondence therefore compares trees after a *stable* sort of
+every child list by element name (text first). -/
+
+def nodeKey : Node → String × String
+  | .elem n _ _ => (n.space, n.loc)
+  | .text _ => ("", "")
+
+def keyLe (a b : Node) : Bool :=
+  let ka := nodeKey a; let kb := nodeKey b
+  if ka.1 = kb.1 then !(kb.2 < ka.2) else !(kb.1 < ka.1)
+
+mutual
+def canonNode : Node → Node
+  | .elem n as ks => .elem n as ((canonList ks).mergeSort keyLe)
+  | .text s => .text s
+def canonList : List Node → List Node
+  | [] => []
+  | k :: ks => canonNode k :: canonList ks
+end
+
 /-! ### writer skeletons -/
 
 inductive Skel
